@@ -123,7 +123,8 @@ def check_doc(res, d, stmts, text, origin, reqs, expect, spec_side=True):
                 res.sample({"text": text, "layout": layout, "eq": o[1], "wc": o[2], "st": "".join(x or " " for x in o[3])})
         reqs.append({"op": "pil-constraints", "stmts": stmts, "layout": layout})
         expect.append(("Convert.get_constraints/" + layout, r))
-        if spec_side and o[0] in ("ok", "unsat") and positions(o) <= 45 and len(stmts) <= 24:
+        nvars = sum(len(x["tmpl"]) for x in stmts if x["k"] == "seq")
+        if spec_side and o[0] in ("ok", "unsat") and positions(o) <= 45 and len(stmts) <= 24 and nvars <= 60:
             reqs.append({"op": "pil-spec-arrays", "stmts": stmts, "layout": layout})
             expect.append(("LinkSpec.specArrays", {"ok": {"eq": o[1], "wc": o[2], "st": o[3]}} if o[0] == "ok" else {"ok": "unsat"}))
     try:
@@ -142,7 +143,7 @@ def run(st, tier, seed):
                 "documents in the compiler's spelling, and PIL emitted by the real compiler for examples; both layouts; "
                 "non-trivial = satisfiable document with >= 2 strands or a sup-sequence or a structure; distinct by (text, layout)")
     rng = core.rng_for(seed, "c04")
-    n_docs = 300 if tier == "quick" else 5000
+    n_docs = 300 if tier == "quick" else 4000
     reqs, expect = [], []
     with core.scratch("pepper_c04_") as d:
         for i in range(n_docs):
